@@ -133,6 +133,29 @@ def run(ctx: Ctx) -> None:
         ctx.count((src, "delims"), nontrivial=any(t.children and len(t.children) > 1 for t in tokens))
         check_stream(ctx, dmd, src, tokens, env)
 
+    # ---- the same family under configurations that switch second-chain rules off one by one (the property says "under all
+    #      configurations": with fragments_join off the levels of nested pairs are the tokenizer's, not the recomputed ones)
+    for off in (["fragments_join"], ["balance_pairs"], ["fragments_join", "balance_pairs"], ["emphasis"], ["strikethrough"]):
+        omd = MarkdownIt("js-default")
+        for name in off:
+            try:
+                omd.inline.ruler2.disable(name)
+            except Exception:
+                pass
+        omd._verif_cfg = "js-default"
+        omd._verif_ruler2_off = off
+        for src in ["*a **b** c*", "*a [b](c) d*", "**a *b* c**", "~~a *b* c~~", "*a `b` c*", "[*a **b** c*](u)", "*a ![b](c) d*", "***a***", "*a*"] + dsrc[:: max(1, len(dsrc) // 60)]:
+            env = {}
+            try:
+                tokens = omd.parse(src, env)
+            except Exception:
+                continue
+            ctx.count((src, "ruler2-off", tuple(off)), nontrivial=True)
+            before = len(ctx.findings)
+            check_stream(ctx, omd, src, tokens, env)
+            for f in ctx.findings[before:]:
+                f.replay["ruler2_off"] = off
+
     # ---- documents at scale (limits and guards that only large inputs reach): tree builds and flattens back, render repeats
     from markdown_it import MarkdownIt
     big = MarkdownIt("js-default")
@@ -270,6 +293,8 @@ def replay(ctx: Ctx, obj: dict) -> bool:
     if "input" in obj:
         from markdown_it import MarkdownIt
         md = MarkdownIt("js-default") if obj.get("cfg") == "js-default" else gens.make_md(gens.FIXED_CFGS[0])
+        for name in obj.get("ruler2_off", []):
+            md.inline.ruler2.disable(name)
         env = {}
         toks = md.parse(obj["input"], env)
         c = Ctx(ctx.pid, "quick", 0)
